@@ -590,5 +590,276 @@ def run(ctx):
     return cov
 
 
+# ---------------------------------------------------------------------------------------------
+# Transport parts of C17, C06, C09
+
+# (tag, kind of call, api whose response is cut, fault placement, version table for all brokers)
+C17_TYPES = [
+    ("produce-v8", "produce", "Produce", {}, {"Produce": [0, 8]}),
+    ("produce-v7", "produce", "Produce", {}, {"Produce": [0, 7]}),
+    ("produce-v3", "produce", "Produce", {}, {"Produce": [0, 3]}),
+    ("produce-v2", "produce", "Produce", {}, {"Produce": [0, 2]}),
+    ("fetch-v11", "fetch", "Fetch", {}, {"Fetch": [0, 11]}),
+    ("fetch-v10", "fetch", "Fetch", {}, {"Fetch": [0, 10]}),
+    ("fetch-v5", "fetch", "Fetch", {}, {"Fetch": [0, 5]}),
+    ("fetch-v2", "fetch", "Fetch", {}, {"Fetch": [0, 2]}),
+    ("listoffsets-v5", "listoffsets1", "ListOffsets", {}, {"ListOffsets": [0, 5]}),
+    ("listoffsets-v1", "listoffsets1", "ListOffsets", {}, {"ListOffsets": [0, 1]}),
+    ("listoffsets2-v5", "listoffsets", "ListOffsets", {"part": 1}, {"ListOffsets": [0, 5]}),
+    ("findcoordinator-v2", "findcoordinator", "FindCoordinator", {}, {}),
+    ("findcoordinator-v0", "findcoordinator", "FindCoordinator", {}, {"FindCoordinator": [0, 0]}),
+    ("findcoordinator-leg", "offsetcommit", "FindCoordinator", {"leg": 1}, {}),
+    ("offsetcommit-v7", "offsetcommit", "OffsetCommit", {}, {}),
+    ("offsetcommit-v2", "offsetcommit", "OffsetCommit", {}, {"OffsetCommit": [0, 2]}),
+    ("offsetfetch-v5", "offsetfetch", "OffsetFetch", {}, {}),
+    ("offsetfetch-v1", "offsetfetch", "OffsetFetch", {}, {"OffsetFetch": [0, 1]}),
+    ("joingroup-v2", "joingroup", "JoinGroup", {}, {}),
+    ("createtopics-v4", "createtopics", "CreateTopics", {}, {"CreateTopics": [0, 4]}),
+    ("createtopics-v0", "createtopics", "CreateTopics", {}, {"CreateTopics": [0, 0]}),
+    ("deletetopics-v3", "deletetopics", "DeleteTopics", {}, {"DeleteTopics": [0, 3]}),
+    ("initproducerid-v1", "initproducerid", "InitProducerId", {}, {}),
+    ("addpartitionstotxn-v2", "addpartitionstotxn", "AddPartitionsToTxn", {}, {}),
+    ("endtxn-v2", "endtxn", "EndTxn", {}, {}),
+    ("apiversions-v0", "produce", "ApiVersions", {"wire": True}, {}),
+    ("metadata-v8", "produce", "Metadata", {"wire": True}, {"Metadata": [0, 8]}),
+    ("metadata-v5", "produce", "Metadata", {"wire": True}, {"Metadata": [0, 5]}),
+    ("metadata-v1", "produce", "Metadata", {"wire": True}, {"Metadata": [0, 1]}),
+]
+C17_QUICK = {"produce-v8", "produce-v7", "produce-v2", "fetch-v11", "fetch-v10", "fetch-v2", "listoffsets-v5", "listoffsets-v1", "listoffsets2-v5",
+             "findcoordinator-v2", "findcoordinator-leg", "offsetcommit-v7", "offsetfetch-v5", "joingroup-v2", "createtopics-v4", "deletetopics-v3",
+             "initproducerid-v1", "endtxn-v2", "apiversions-v0", "metadata-v8", "metadata-v1"}
+
+
+def c17_script(tag, kind, api, place, table, cut):
+    """one call whose response (or a response it depends on) is cut at byte `cut` (None: probe), then the same call again"""
+    rng = random.Random(hash(tag) & 0xffff)
+    ops = Ops()
+    # (the discover loop gives its metadata request one TTL to complete: a short TTL on a loaded machine makes the
+    # first load fail for reasons that have nothing to do with the scenario)
+    sc = cluster(brokers=(1, 2), boot=(1,), leaders1=(2, 2), leaders2=(2, 2), coord=2, txn=2, ctrlr=2,
+                 ttl=400 if (place.get("wire") and api == "Metadata") else 3000)
+    sc["vtab"] = {"0": dict(table)}
+    st = []
+    fault = None
+    if cut is not None and not place.get("wire"):
+        fault = {"cut": cut}
+        fault.update({k: v for k, v in place.items() if k in ("leg", "part")})
+    kw = dict(t="t1", p=0)
+    created = None
+    if kind == "deletetopics":
+        created = ops.op("createtopics")
+        st.append({"op": created})
+    if kind == "listoffsets":
+        first = ops.op("listoffsets", parts=[{"t": "t1", "p": 0, "k": 1}, {"t": "t1", "p": 1, "k": 2}])
+    elif kind == "deletetopics":
+        first = ops.op("deletetopics", k=created["o"])
+    else:
+        first = mkop(ops, kind, rng, **kw)
+    if fault:
+        first["fault"] = fault
+    if place.get("wire"):
+        if cut is not None:
+            # ApiVersions: the handshake of the connection to the leader (broker 2); Metadata: the first load of the pool
+            sc["wfaults"] = [{"api": api, "broker": 2 if api == "ApiVersions" else 0, "nth": 1, "cut": cut}]
+        first["mayFail"] = True
+    st.append({"op": first})
+    if place.get("wire") and api == "Metadata":
+        st.append({"sleepMs": 650})     # the discover loop loads the metadata again within one TTL
+    if kind == "deletetopics":
+        c2 = ops.op("createtopics", mustSucceed=True)
+        st += [{"op": c2}, {"op": ops.op("deletetopics", k=c2["o"], mustSucceed=True)}]
+    elif kind == "listoffsets":
+        st.append({"op": ops.op("listoffsets", parts=[{"t": "t1", "p": 0, "k": 3}, {"t": "t1", "p": 1, "k": 0}], mustSucceed=True)})
+    else:
+        nxt = mkop(ops, kind, rng, **kw)
+        nxt["mustSucceed"] = True
+        st.append({"op": nxt})
+    sc.update({"id": "c17-%s-%s" % (tag, "probe" if cut is None else "k%d" % cut), "kind": "c17", "steps": st})
+    return sc
+
+
+def c17_scripts(ctx, lens):
+    rng = random.Random(ctx.seed)
+    out = []
+    for (tag, kind, api, place, table) in C17_TYPES:
+        if ctx.tier == "quick" and tag not in C17_QUICK:
+            continue
+        n = lens.get(tag)
+        if not n:
+            continue
+        ks = list(range(n))
+        if ctx.tier == "quick" and n > 90:
+            ks = sorted(set(list(range(60)) + rng.sample(range(60, n), 25) + [n - 1]))
+        for k in ks:
+            out.append(c17_script(tag, kind, api, place, table, k))
+    return out
+
+
+def c17_lengths(probes, traces):
+    """frame length of the response that will be cut, from the probe run"""
+    lens = {}
+    for (tag, kind, api, place, table), t in zip(probes, traces):
+        for e in t:
+            if e.get("ev") != "reply" or e.get("api") != api or e.get("closed"):
+                continue
+            if place.get("wire"):
+                if api == "ApiVersions" and e.get("broker") != 2:
+                    continue
+                lens.setdefault(tag, e["len"])
+            elif e.get("o") == (2 if kind == "deletetopics" else 1):
+                if api == "FindCoordinator" or e.get("leg") == (place.get("part", 0) + 1 if kind == "listoffsets" else e.get("leg")):
+                    lens.setdefault(tag, e["len"])
+    return lens
+
+
+def c06_scripts(seed, n):
+    rng = random.Random(seed * 104729 + 6)
+    kinds = KINDS_LEADER + ["listoffsets", "metadata", "findcoordinator", "createtopics"] + KINDS_GROUP + KINDS_TXN
+    out = []
+    for k in range(n):
+        ops = Ops()
+        nb = rng.choice([2, 3])
+        brokers = list(range(1, nb + 1))
+        pick = lambda: rng.choice(brokers)
+        sc = cluster(brokers=brokers, boot=sorted(rng.sample(brokers, rng.randint(1, nb))), leaders1=(pick(), pick()), leaders2=(pick(), pick()),
+                     coord=pick(), txn=pick(), ctrlr=pick(), ttl=rng.choice([400, 1000, 3000]), idle=rng.choice([30000, 30000, 120]))
+        groups = []
+        allops = []
+        for g in range(rng.randint(2, 4)):
+            lst = []
+            for _ in range(rng.randint(1, 3)):
+                op = mkop(ops, rng.choice(kinds), rng)
+                r = rng.random()
+                if r < 0.25:
+                    op["fault"] = {"delayMs": rng.choice([2, 5, 15, 30])}
+                elif r < 0.45:
+                    op["fault"] = {"chunks": [rng.randint(1, 9) for _ in range(rng.randint(1, 4))]}
+                lst.append(op)
+                allops.append(op)
+            groups.append(lst)
+        # one hard fault per script: a cut, a cancelled call whose response is held back, or a deadline
+        cand = [o for o in allops if o["kind"] not in ("metadata",)]
+        r = rng.random()
+        tail = []
+        if cand and r < 0.3:
+            v = rng.choice(cand)
+            v["fault"] = {"cut": rng.randint(0, 40)}
+            if v["kind"] in ("offsetcommit", "offsetfetch", "joingroup", "initproducerid", "addpartitionstotxn", "endtxn") and rng.random() < 0.3:
+                v["fault"]["leg"] = 1
+        elif cand and r < 0.55:
+            v = rng.choice(cand)
+            v["fault"] = {"hold": True}
+            v["cancelAfterMs"] = rng.choice([1, 5, 20])
+            tail = [{"release": v["o"]}, {"sleepMs": 20}]
+        elif cand and r < 0.7:
+            v = rng.choice(cand)
+            v["fault"] = {"hold": True}
+            v["deadlineMs"] = rng.choice([20, 40, 80])
+            tail = [{"sleepMs": 100}, {"release": v["o"]}, {"sleepMs": 20}]
+        st = [{"par": groups}] + tail
+        # afterwards every kind of call still gets its own answer
+        st += steps_of([dict(mkop(ops, kk, rng), mustSucceed=True) for kk in rng.sample(KINDS_LEADER + ["offsetfetch", "initproducerid"], 3)])
+        sc.update({"id": "c06-%d-%d" % (seed, k), "kind": "c06", "steps": st})
+        out.append(sc)
+    return out
+
+
+def c09_scripts(seed, tier):
+    rng = random.Random(seed * 31337 + 9)
+    out = []
+    kinds = [("produce", 0), ("fetch", 0), ("listoffsets1", 0), ("listoffsets", 0), ("offsetcommit", 0), ("offsetcommit", 1), ("offsetfetch", 0),
+             ("joingroup", 0), ("findcoordinator", 0), ("createtopics", 0), ("initproducerid", 0), ("initproducerid", 1), ("endtxn", 0)]
+    for (kind, leg) in kinds:
+        for how in ("cancel", "deadline"):
+            for warm in ((True, False) if tier == "thorough" else (True,)):
+                ops = Ops()
+                sc = cluster(brokers=(1, 2), boot=(1,), leaders1=(2, 2), leaders2=(2, 2), coord=2, txn=2, ctrlr=2, ttl=2000)
+                kw = dict(t="t1", p=0)
+                st = []
+                if warm:
+                    st.append({"op": dict(mkop(ops, kind, rng, **kw), mustSucceed=True)})
+                v = mkop(ops, kind, rng, **kw)
+                v["fault"] = {"hold": True, "leg": leg}
+                if how == "cancel":
+                    v["cancelAfterMs"] = rng.choice([1, 10, 30])
+                else:
+                    v["deadlineMs"] = rng.choice([40, 80])
+                st.append({"op": v})
+                # while the abandoned exchange is still pending, the same kind of call works (on another connection)
+                st.append({"op": dict(mkop(ops, kind, rng, **kw), mustSucceed=True)})
+                st += [{"release": v["o"]}, {"sleepMs": 30}]
+                st.append({"op": dict(mkop(ops, kind, rng, **kw), mustSucceed=True)})
+                st.append({"op": dict(mkop(ops, kind, rng, **kw), mustSucceed=True)})
+                sc.update({"id": "c09-%s-leg%d-%s%s" % (kind, leg, how, "" if warm else "-cold"), "kind": "c09", "steps": st})
+                out.append(sc)
+    # the context ends while the connection is being set up, and while the pool waits for its first metadata
+    for (api, broker, tag) in (("ApiVersions", 2, "connect"), ("Metadata", 0, "firstload")):
+        for how in ("cancel", "deadline"):
+            ops = Ops()
+            sc = cluster(brokers=(1, 2), boot=(1,), leaders1=(2, 2), leaders2=(2, 2), coord=2, txn=2, ctrlr=2, ttl=2000)
+            sc["wfaults"] = [{"api": api, "broker": broker, "nth": 1, "hold": True, "id": 1}]
+            v = ops.op("produce", t="t1", p=0, expectCtx=True)
+            if how == "cancel":
+                v.update({"cancelAfterMs": 30, "cancelBlind": True})
+            else:
+                v["deadlineMs"] = 60
+            st = [{"op": v}, {"release": -1}, {"sleepMs": 150}, {"op": ops.op("produce", t="t1", p=0, mustSucceed=True)},
+                  {"op": ops.op("fetch", t="t1", p=0, k=1, mustSucceed=True)}]
+            sc.update({"id": "c09-%s-%s" % (tag, how), "kind": "c09", "steps": st})
+            out.append(sc)
+    return out
+
+
 def run_part(ctx, prop):
-    raise Inconclusive("transport part of %s not built yet" % prop)
+    """Transport part of C06, C17 or C09: journals of the real Transport judged by TransportMon.tla and validated
+    against Transport.tla. Calls ctx.violation itself; returns the coverage of this part."""
+    cov = {"engine": "transport"}
+    if not os.environ.get("VERIF_TRANSPORT_NOMC"):
+        d = ctx.specdir(ENGINE)
+        name = "fault"
+        table = MC_QUICK if ctx.tier == "quick" else MC_THOROUGH
+        write_mc_cfg(d, "MCpart_%s.cfg" % prop, *table[name])
+        r = ctx.tlc(ENGINE, "MCTransport", "MCpart_%s.cfg" % prop, workers=12, timeout=2400, tag="mcpart-" + prop)
+        if r["violated"] or r["error"] or r["timeout"]:
+            raise Inconclusive("model checking of Transport.tla (%s) did not pass: %s" % (name, r["out"][-2000:]))
+        cov.update({"states": r["distinct"], "transitions": r["generated"], "mc_depth": r["depth"], "mc_config": name})
+        gname = {"C06": "releaseOnCancel", "C17": "releaseOnFail", "C09": "releaseOnCancel"}[prop]
+        write_mc_cfg(d, "MCpartguard_%s.cfg" % prop, *MC_QUICK[GUARDS[gname][0]], bug=gname)
+        r2 = ctx.tlc(ENGINE, "MCTransport", "MCpartguard_%s.cfg" % prop, workers=6, timeout=600, tag="mcpartguard-" + prop)
+        if r2["violated"] not in GUARDS[gname][1]:
+            raise Inconclusive("vacuity guard failed: the model with defect %s was not rejected (%s)" % (gname, r2["violated"] or r2["out"][-600:]))
+        cov["vacuity_guards"] = {gname: r2["violated"]}
+    if prop == "C17":
+        types = [x for x in C17_TYPES if ctx.tier == "thorough" or x[0] in C17_QUICK]
+        probes = [c17_script(tag, kind, api, place, table, None) for (tag, kind, api, place, table) in types]
+        ptr = run_scripts(ctx, probes, "c17probe")
+        lens = c17_lengths(types, ptr)
+        missing = [x[0] for x in types if x[0] not in lens]
+        if missing:
+            raise Inconclusive("no frame length for %s" % missing)
+        scripts = c17_scripts(ctx, lens)
+        cov["cut_points"] = len(scripts)
+        cov["frames"] = lens
+    elif prop == "C06":
+        scripts = c06_scripts(ctx.seed, 120 if ctx.tier == "quick" else 2500)
+    elif prop == "C09":
+        scripts = c09_scripts(ctx.seed, ctx.tier)
+    else:
+        raise Inconclusive("no transport part for %s" % prop)
+    traces = run_scripts(ctx, scripts, prop.lower())
+    # trace validation is the expensive half: every journal in the thorough tier, a seeded sample in the quick tier
+    if ctx.tier == "quick":
+        rng = random.Random(ctx.seed)
+        idx = sorted(rng.sample(range(len(scripts)), min(len(scripts), {"C17": 160, "C06": 30, "C09": 30}[prop])))
+    else:
+        idx = list(range(len(scripts)))
+    checked = monitor(ctx, scripts, traces, PROP_INVS[prop])
+    accepted, divs, tstates = conformance(ctx, [traces[i] for i in idx])
+    cov.update({"traces_validated_against_impl": accepted, "traces_submitted_for_validation": len(idx), "traces_monitored": checked,
+                "scenarios": len(scripts), "trace_events": sum(len(t) for t in traces), "trace_validation_states": tstates,
+                "requests_journaled": sum(1 for t in traces for e in t if e.get("ev") == "req"),
+                "divergence_count": len(divs), "divergences": divs[:10], "invariants": PROP_INVS[prop], "samples": sample(scripts, traces)})
+    if divs:
+        ctx.notes.append("DIVERGENCE: %d journal(s) of the real Transport are not behaviours of Transport.tla" % len(divs))
+        print("DIVERGENCE property=%s traces=%d first=%s" % (prop, len(divs), json.dumps(divs[0])[:400]), flush=True)
+    return cov
